@@ -91,12 +91,37 @@ def _sha(*parts):
     return h.hexdigest()
 
 
+def kernel_module_closure(path):
+    """the kernel's sidecar module and every module of vf/kernels it imports (transitively): engine hooks and helpers shared between sidecar files are part of the VC generator"""
+    import ast
+    kdir = os.path.dirname(os.path.abspath(__file__))
+    seen, todo = [], [os.path.abspath(path)]
+    while todo:
+        f = todo.pop()
+        if f in seen or not os.path.exists(f):
+            continue
+        seen.append(f)
+        try:
+            tree = ast.parse(open(f).read())
+        except SyntaxError:
+            continue
+        for n in ast.walk(tree):
+            names = []
+            if isinstance(n, ast.ImportFrom) and n.level == 1:
+                names = [n.module] if n.module else [a.name for a in n.names]
+            for nm in names:
+                cand = os.path.join(kdir, nm.split(".")[0] + ".py")
+                if os.path.dirname(f) == kdir and os.path.abspath(cand) != os.path.abspath(__file__):
+                    todo.append(cand)
+    return sorted(seen)
+
+
 def machinery_hash(k):
     """hash of everything besides the real source that determines the verification conditions of kernel k: the VC generator, the sidecar contract module, the lemma module"""
     import glob
     import sys
     vf_dir = os.path.dirname(os.path.dirname(os.path.abspath(__file__)))
-    files = sorted(glob.glob(os.path.join(vf_dir, "pyvc", "*.py"))) + [os.path.abspath(__file__), os.path.join(vf_dir, "lemmas.py"), sys.modules[type(k).__module__].__file__]
+    files = sorted(glob.glob(os.path.join(vf_dir, "pyvc", "*.py"))) + [os.path.abspath(__file__), os.path.join(vf_dir, "lemmas.py")] + kernel_module_closure(sys.modules[type(k).__module__].__file__)
     key = tuple(files)
     if key not in _ledger_cache:
         _ledger_cache[key] = _sha(*[open(f, "rb").read() for f in files])
@@ -199,11 +224,11 @@ def run_kernel(k, tier="quick"):
     res.info = info
     # VC splitting: a conjunctive goal is discharged conjunct by conjunct (one small query each); the obligation holds iff every conjunct is refuted
     def conjuncts(g):
-        if z3.is_and(g):
+        if z3.is_and(g) and g.num_args() > 0:
             for c in g.children():
                 yield from conjuncts(c)
         else:
-            yield g
+            yield g  # includes the empty conjunction And() = True
 
     items, owner = [], []
     for oi, ob in enumerate(eng.obligations):
